@@ -203,7 +203,10 @@ def check(prog, res, tier):
                     if b.get('blocked') is not u['bl']:
                         fails.append(definite(f'{side} does not receive the blocked option'))
             codecs = [(e.data['op'], e.data['codec']) for e in p.evs('codec') if e.under(fi.short)]
-            if [c[0] for c in codecs] != ['decode', 'encode'] or codecs[0][1] is not u['ie'] or codecs[1][1] is not u['oe']:
+            regenerated = any(getattr(w[1], 'regenerated', False) for w in u.get('write_many', []))
+            if regenerated:
+                pass      # a late-bound pipeline was re-evaluated where it is consumed: the data-flow check below decides
+            elif [c[0] for c in codecs] != ['decode', 'encode'] or codecs[0][1] is not u['ie'] or codecs[1][1] is not u['oe']:
                 fails.append(definite(f'records are not decoded with the input encoding then encoded with the output encoding: {codecs}'))
             wm = u.get('write_many', [])
             if len(wm) != 1 or wm[0][0] is not wo or not isinstance(wm[0][1], IterV):
@@ -231,6 +234,10 @@ def check(prog, res, tier):
                     o2 = getattr(mid, 'origin', None)
                     if not (isinstance(o1, tuple) and len(o1) == 3 and o1[0] == 'encode' and o1[2] is u['oe']):
                         fails.append(definite(f'the record written is {w_el!r} ({o1 and o1[0]!r}), not the text encoded with the output encoding'))
+                    elif isinstance(o2, tuple) and len(o2) == 3 and o2[0] == 'decode' and it.resolve(o2[2]) is u['oe'] and u['oe'] is not u['ie'] \
+                            and getattr(it.resolve(o2[1]), 'kind', None) == 'elem':
+                        fails.append(definite('the records are decoded with the OUTPUT encoding (the name the decoding stage reads is rebound '
+                                              'before the pipeline runs): nothing is transcoded', firm=True))
                     elif not (isinstance(o2, tuple) and len(o2) == 3 and o2[0] == 'decode' and o2[2] is u['ie']):
                         # recognised modification: decoded_text.replace(a, b) with two different literals changes every record
                         # that contains a (records are arbitrary bytes); anything else opaque is "not recognised"
